@@ -163,6 +163,22 @@ impl TcpStream {
 /// Shared by the sync and async streams.
 pub(crate) fn connect_ep(addr: &str) -> io::Result<usize> {
     let (own, label) = owner();
+    // a connection to another node takes (at least) one network hop before the peer sees it
+    let hop = with(|k| {
+        let to = k.net.lookup(addr).and_then(|l| k.net.listeners[l].node).or_else(|| k.net.addr_owner.get(addr).copied());
+        match (own.map(|o| o.0), to) {
+            (Some(a), Some(b)) if a != b => {
+                let (lo, hi) = k.net.link_latency.get(&(a, b)).copied().unwrap_or(k.net.latency);
+                Some(if hi > lo { lo + k.rng.below(hi - lo + 1) } else { lo })
+            }
+            _ => None,
+        }
+    });
+    if let Some(d) = hop {
+        if d > 0 {
+            kernel::sleep_ns(d);
+        }
+    }
     let r = with(|k| match k.net.lookup(addr) {
         Some(l) => {
             let to = k.net.listeners[l].node;
